@@ -3,6 +3,7 @@ mod backends;
 mod c05;
 mod c07;
 mod c07x;
+mod c11x;
 mod c08;
 mod c09;
 mod c10;
